@@ -305,6 +305,8 @@ def apply_chain(envs, chain, tmp, watch):
         else:
             envs = getattr(envs, m)(*args, **kw)
         envs = envs[step.get("pick", 0):step.get("pick", 0) + 1] if len(envs) > 1 else envs
+        if m in ("cache", "materialize", "chunk", "save") or (m == "filter" and step["f"]["cls"] == "Cache"):
+            watch.setdefault("_holders", []).append((m, envs))      # from here on the data is held by a cache / a file
     return envs
 
 
@@ -747,10 +749,10 @@ def numeric_ctx(sh):
     return sh["ctx"] in ("dense", "tuple", "value", "sparse")
 
 
-def g_step(rng, sh):
+def g_step(rng, sh, want=None):
     """one legal shortcut call for the current interaction shape; returns (step, shape') or None"""
     names = shortcuts()
-    m = rng.choice(names)
+    m = want if want in names else rng.choice(names)
     sh = dict(sh)
     disc = sh["act"] not in ("empty", "none") and not sh["norewards"]
     if sh["batched"] and m not in ("unbatch", "params", "take", "slice", "shuffle", "cache", "chunk", "materialize", "reservoir", "riffle", "where", "filter"):
@@ -923,38 +925,67 @@ def g_filter(rng, cls, sh):
     return None
 
 
+MUTATORS = ["scale", "scale", "impute", "impute", "noise", "repr", "flatten", "cycle", "binary", "sparse", "dense", "grounded", "sort", "logged",
+            "shuffle", "batch", "where", "take", "params"]
+
+
+def nonidempotent(rng, st):
+    """settings under which applying the filter to its own output is visible (so writing into shared data shows)"""
+    if st["m"] == "scale" and rng.chance(0.7):
+        st["a"][0] = st["a"][0] if st["a"][0] == 0 else rng.choice([1, 1, "mean", 2])
+        st["a"][1] = rng.choice([2, 2, 0.5, "std"])
+    return st
+
+
 def g_chain(rng, sh):
     L = rng.choice([0, 1, 1, 2, 2, 3, 3, 4, 5, 6])
     chain = []
     tries = 0
-    # bias: the stateful mechanisms must be reached often
+    # bias: the stateful mechanisms must be reached often.  A forced entry is a shortcut name, None (any), or a list (one of)
     forced = []
     r = rng.below(100)
-    if r < 20:
+    holder = rng.choice(["cache", "cache", "materialize", "materialize", "chunk"])
+    if r < 15:
         forced = ["logged", "shuffle"]
-    elif r < 30:
-        forced = ["cache", None]            # a cache followed by any other filter (copies handed out)
-    elif r < 35:
-        forced = ["materialize", None]
-    elif r < 42:
-        forced = ["sparse", "dense"]
-    elif r < 47 or (sh["ctx"] == "densenone" and r < 80):
-        forced = ["impute"]
+    elif r < 37:
+        forced = [holder, MUTATORS]            # data held by a cache, then a filter that has to copy before it changes anything
     elif r < 52:
+        # sparse contexts -> SparseDense rows (Densify) -> held by a cache -> a filter that writes into contexts
+        forced = ([] if sh["ctx"] == "sparse" else ["sparse!"]) + ["dense!", holder, ["scale", "scale", "impute", "noise", "flatten", "repr"]]
+    elif r < 57:
+        forced = ["sparse", "dense"]
+    elif r < 62 or (sh["ctx"] == "densenone" and r < 85):
+        forced = ["impute"] if rng.chance(0.5) else [holder, "impute"]
+    elif r < 66:
         forced = ["cache", "cycle"]
     while len(chain) < L + len(forced) and tries < 40:
         tries += 1
         if forced:
-            name = forced[0]
+            name = forced.pop(0)
             res = None
-            for _ in range(40):
-                res = g_step(rng, sh)
-                if res and (name is None or res[0].get("m") == name) and "unknown" not in res[0]:
+            for _ in range(12):
+                want = rng.choice(name) if isinstance(name, list) else (name.rstrip("!") if name else None)
+                res = g_step(rng, sh, want)
+                if res and "unknown" not in res[0] and (want is None or res[0].get("m") == want):
                     break
                 res = None
-            forced.pop(0)
             if res is None:
                 continue
+            st, sh2 = res
+            if name == "sparse!":
+                st["a"][0] = True
+                if sh["ctx"] != "none":
+                    sh2["ctx"] = "sparse"
+                    sh2["skeys"] = sh2.get("skeys") or [str(i) for i in range(4)] + ["context"]
+                    sh2["sparsified"] = True
+            if name == "dense!":
+                st["k"]["context"] = True
+                if sh["ctx"] == "sparse":
+                    sh2["ctx"] = "dense"
+                    sh2["width"] = st["a"][0]
+            if isinstance(name, list):
+                st = nonidempotent(rng, st)
+            res = (st, sh2)
         else:
             res = g_step(rng, sh)
         if res is None:
@@ -994,6 +1025,8 @@ def g_hist(rng, n_est):
     hist.append({"op": "full", "on": npool - 1})
     if rng.chance(0.5):
         hist.append({"op": "params", "on": npool - 1})
+    if rng.chance(0.6):
+        hist.append({"op": "full", "on": npool - 1})      # data changed by the previous read shows on this one
     if fulls == 0 and rng.chance(0.7):
         hist.insert(0, {"op": "full", "on": 0})
     return hist
@@ -1190,8 +1223,39 @@ def monitor(case, tmp):
     if before != after:
         ks = sorted(k for k in before if before[k] != after.get(k))
         raw.append(("source-modified", ",".join(k.rstrip("0123456789") for k in ks), "caller-passed data changed during the history: %s" % ks))
+    raw += held_data_check(case, tmp, tags)
     info = {"ref_len": len(ref), "nfull": nfull, "outs": outs, "ref": ref, "refp": refp, "srcpost": srcpost}
     return raw, tags, info
+
+
+def held_data_check(case, tmp, tags):
+    """reading never modifies data held further up: when the chain puts a cache()/materialize()/chunk()/save() before
+    other filters, the interactions that holder hands out (read through the public pipeline that ends at the holder) are
+    snapshotted deeply, the whole pipeline is read twice, and the snapshot is taken again after each read"""
+    chain = case.get("chain", [])
+    if not any(st["m"] in ("cache", "materialize", "chunk", "save") or (st["m"] == "filter" and st["f"]["cls"] == "Cache") for st in chain[:-1]):
+        return []
+    raw = []
+    try:
+        envs, watch = build(case, tmp)
+        holders = watch.get("_holders", [])
+        env = envs[0]
+        views = [(m, h[0]) for m, h in holders]
+        snap0 = [full_read(v) for _, v in views]          # also fills the caches, as a first complete read would
+        tags.append("held-data-check")
+        for n in (1, 2):
+            full_read(env)
+            for (m, v), s0 in zip(views, snap0):
+                if full_read(v) != s0:
+                    raw.append(("held-data-modified", m, "after full read #%d of the pipeline the interactions held by its %s() step have changed "
+                                "(a downstream filter wrote into them)" % (n, m)))
+            if raw:
+                break
+    except BaseException as e:
+        if not trappable(e):
+            raise
+        tags.append("held-data-check-raised:" + errname(e))
+    return raw[:1]
 
 
 def derive_always_fails(case, i, err, tmp):
